@@ -258,6 +258,9 @@ class PathEval:
             ty = o.get('ty', '')
             if o.get('int') is not None and (int_range(ty) or ty == 'bool'):
                 return Lin(const=int(o['int']))
+            rng = _promoted_range(o)
+            if rng is not None:
+                return rng
             return ('const', o)
         if o['k'] in ('copy', 'move'):
             k = self.key(o['pl'])
@@ -557,6 +560,25 @@ class PathEval:
             return
         # unreachable / resume: no result
         return
+
+
+def _promoted_range(o):
+    """`(LO..=HI).contains(&x)` with constant bounds: the range is a promoted constant; read its two bounds from the bytes"""
+    ty = str(o.get('ty', ''))
+    m = re.search(r'Range(Inclusive)?<([iu](?:8|16|32|64|128|size))>$', ty)
+    hx = o.get('ref_bytes')
+    if not m or not hx:
+        return None
+    r = int_range(m.group(2))
+    n = {'8': 1, '16': 2, '32': 4, '64': 8, '128': 16, 'size': 8}[m.group(2)[1:]]
+    raw = bytes.fromhex(hx)
+    if len(raw) < 2 * n:
+        return None
+    signed = m.group(2)[0] == 'i'
+    lo = int.from_bytes(raw[0:n], 'little', signed=signed)
+    hi = int.from_bytes(raw[n:2 * n], 'little', signed=signed)
+    name = 'RangeInclusive' if m.group(1) else 'Range'
+    return ('agg', name, [Lin(const=lo), Lin(const=hi)], name)
 
 
 def _place_ty(fn, pl):
